@@ -167,7 +167,17 @@ func (h *Hub) CancelPairingWithSKI(ski string) {
 
 	h.removeConnectionAttemptCounter(ski)
 
-	if existingC := h.connectionForSKI(ski); existingC != nil {
+	// take the trust away before looking for a connection: a connection that is just being established is either
+	// registered by now or will not be registered any more, see UnregisterRemoteSKI
+	service := h.ServiceForSKI(ski)
+	service.ConnectionStateDetail().SetState(api.ConnectionStateNone)
+	service.SetTrusted(false)
+
+	h.muxConReg.Lock()
+	existingC := h.connectionForSKI(ski)
+	h.muxConReg.Unlock()
+
+	if existingC != nil {
 		existingC.AbortPendingHandshake()
 
 		// a handshake can only be aborted while it waits in its hello phase. In any other state it would go on
@@ -181,7 +191,6 @@ func (h *Hub) CancelPairingWithSKI(ski string) {
 	}
 	h.verifPoint("cancel-pairing-after-lookup")
 
-	service := h.ServiceForSKI(ski)
 	service.ConnectionStateDetail().SetState(api.ConnectionStateNone)
 	service.SetTrusted(false)
 
